@@ -80,7 +80,7 @@ CATALOG = [
     ("seed-C13_m2", "seeded", "C13_m2", [("R-FMMAP", "iterator-last")]),
     ("seed-C15_m1", "seeded", "C15_m1", [("R-METADATA", "StringDictionaryPFC::StringDictionaryPFC#maxlength")]),
     ("seed-C15_m2", "seeded", "C15_m2", [("R-MIRROR", "StringDictionaryHTFC::save<->StringDictionaryHTFC::load")]),
-    ("seed-C17_m1", "seeded", "C17_m1", [("R-TWINS", "VByte::decode<->decodeVB2")]),
+    ("seed-C17_m1", "seeded", "C17_m1", [("R-VBYTE", "VByte::decode#loop-bound")]),
     ("seed-C17_m2", "seeded", "C17_m2", [("R-SETFIELD", "LogSequence::set_field#store")]),
     ("seed-C19_m2", "seeded", "C19_m2", [("R-MIRROR", "BitSequenceRG")]),
     ("seed-C19_m3", "seeded", "C19_m3", [("R-CONSTPURE", "wt_coder_huff")]),
